@@ -270,6 +270,31 @@ WITNESSES = [
 ]
 
 
+def _two():
+    return {'apps': [{'id': 'vapp', 'models': [_m('Alpha', [_f('a', 'IntegerField'), _f('b', 'IntegerField')]),
+                                                _m('Beta', [_f('c', 'IntegerField'), _f('d', 'IntegerField')])]}]}
+
+
+_ADD = {'t': 'AddField', 'model': 'Alpha', 'field': 'x', 'ftype': 'IntegerField', 'initial': '1', 'attrs': []}
+_DELM = {'t': 'DeleteModel', 'model': 'Beta'}
+_DELF = {'t': 'DeleteField', 'model': 'Beta', 'field': 'd'}
+_CHG = {'t': 'ChangeField', 'model': 'Beta', 'field': 'c', 'ftype': None, 'initial': None, 'attrs': [['null', 'true']]}
+
+# deterministic family: the residual difference between the simulated signature and the models is
+# one-directional (something only the stored side has / only the models have); the remaining
+# evolution is effective on its own, so "nothing to do" cannot hide the decision
+FAMILY = [
+    {'spec0': _two(), 'valid': [_ADD, _DELM], 'perturbation': 'family:drop DeleteModel', 'evolution': [_ADD]},
+    {'spec0': _two(), 'valid': [_ADD, _DELM], 'perturbation': 'family:drop AddField', 'evolution': [_DELM]},
+    {'spec0': _two(), 'valid': [_ADD, _DELF], 'perturbation': 'family:drop DeleteField', 'evolution': [_ADD]},
+    {'spec0': _two(), 'valid': [_ADD, _DELF], 'perturbation': 'family:drop AddField (2)', 'evolution': [_DELF]},
+    {'spec0': _two(), 'valid': [_ADD, _CHG], 'perturbation': 'family:drop ChangeField', 'evolution': [_ADD]},
+    {'spec0': _two(), 'valid': [_DELM], 'perturbation': 'family:extra AddField', 'evolution': [_ADD, _DELM]},
+    {'spec0': _two(), 'valid': [_ADD], 'perturbation': 'family:extra DeleteModel', 'evolution': [_ADD, _DELM]},
+    {'spec0': _two(), 'valid': [_ADD], 'perturbation': 'family:extra DeleteField', 'evolution': [_ADD, _DELF]},
+]
+
+
 def judge(ctx, rep):
     short = {k: rep[k] for k in ('spec0', 'valid', 'perturbation', 'evolution', 'message')}
     for p in rep['problems']:
@@ -323,6 +348,13 @@ def run(ctx):
         ctx.case({'perturbation': rep['perturbation'], 'evolution': [sigs.model_mutation(m) for m in rep['evolution']]},
                  nontrivial=rep['perturbation'] != 'none', sample_cap=8)
         ctx.count('perturb:' + rep['perturbation'])
+        ctx.count('gate:' + ('rejected' if rep['outcome'] == 'error' else 'executed'))
+        judge(ctx, rep)
+    for w in FAMILY:
+        rep = run_case(w, prepared=False)
+        ctx.case({'perturbation': w['perturbation'], 'evolution': [sigs.model_mutation(m) for m in w['evolution']]},
+                 nontrivial=True, sample_cap=8)
+        ctx.count('perturb:family')
         ctx.count('gate:' + ('rejected' if rep['outcome'] == 'error' else 'executed'))
         judge(ctx, rep)
     for w in WITNESSES:
